@@ -74,8 +74,11 @@ Inductive case :=
 (* several admissions into one zone's proof index across clock steps, and lookups *)
 | CProofHist (max_ttl : Z) (steps : list pstep)
 (* DNS64 above the cache: AAAA NODATA piece (with SOA MINIMUM) or none, the A
-   pieces (one per address record), bracket, TTLs of the synthesised AAAAs *)
-| CDns64 (has_soa : bool) (neg : piece) (minimum : Z) (addrs : list piece) (t0 t1 : Z) (obs : list Z)
+   pieces (one per address record), the alias pieces the A chase went through,
+   bracket, the request tree's bound afterwards where the route lets the driver
+   read it, TTLs of the synthesised AAAAs *)
+| CDns64 (has_soa : bool) (neg : piece) (minimum : Z) (addrs via : list piece) (t0 t1 : Z)
+         (bobs : option (option Z)) (obs : list Z)
 (* ReplaceIfCurrent racing SetFromResponse*/Purge on one store, any order *)
 | CCas (ops : list cop)
 (* prefetch through the real queue: claimed entry, refresh inputs, what the
@@ -492,10 +495,12 @@ Definition check_case (c : case) : bool :=
       | None => (ttl <? 0) && oz_eqb eo None
       end
   | CProofHist mx steps => phist_check mx (mk_pindex None []) steps
-  | CDns64 hs neg mn addrs t0 t1 obs =>
+  | CDns64 hs neg mn addrs via t0 t1 bobs obs =>
       let n := if hs then Some (neg, mn) else None in
+      let consulted := neg :: via ++ addrs in
       negb (match obs with [] => true | _ => false end)
-      && forallb (fun x => x =? dns64_ttl n addrs t1) obs
+      && forallb (fun x => x =? dns64_ttl n addrs consulted t1) obs
+      && match bobs with Some b => oz_eqb b (dns64_bound None consulted) | None => true end
   | CCas ops => cas_replay [] 1%N ops
   | CPrefetch claimed current cls rrs cut w0 w1 t0 t1 replaced after_id after =>
       let ok := (negb (current =? 0)%N) && (current =? claimed)%N && admitted_class cls in
@@ -578,13 +583,14 @@ Definition spec_case (c : case) : bool :=
       else forallb (fun x => (now <? x) && (ttl * second <=? x - now)) (se :: pcs)
            && match eo with Some e => forallb (fun x => e <=? x) (se :: pcs) | None => false end
   | CProofHist mx steps => phist_spec mx [] steps
-  | CDns64 hs neg mn addrs t0 t1 obs =>
+  | CDns64 hs neg mn addrs via t0 t1 bobs obs =>
       (* the synthesised records are inside the lifetime of every cached piece they were composed from *)
       forallb (fun x =>
                  forallb (fun p => match p with
                                    | PHit e => (t0 <? entry_end e) && (x * second <=? entry_end e - t0)
-                                   | PFresh t => x <=? t
+                                   | PFresh t _ => x <=? t
                                    end) (neg :: addrs)
+                 && (0 <=? x)
                  && (if hs then x <=? mn else x <=? 600)) obs
   | CCas ops => cas_spec [] ops
   | CPrefetch claimed current cls rrs cut w0 w1 t0 t1 replaced after_id after =>
